@@ -270,9 +270,10 @@ def ref_concat(rs):
     outs = [o for r in rs for o in r.outs]
     allk = all(r.keys is not None for r in rs)
     keys = [k for r in rs for k in r.keys] if allk else None
-    uniq = allk and len(set(keys)) == len(keys)
+    # keys() of a concatenation needs keys() of every part (a part may offer items() only) and unique keys
+    uniq = allk and all(r.has_keys for r in rs) and len(set(keys)) == len(keys)
     return Ref(outs, keys, all(r.idx for r in rs), all(r.len_ for r in rs), has_keys=uniq,
-               has_items=all(r.has_items for r in rs))
+               has_items=allk and all(r.has_items for r in rs))
 
 
 def ref_zip(rs):
@@ -351,5 +352,5 @@ def ref_intersperse(rs):
     outs = [rs[d].outs[e] for _, d, e in order]
     allk = all(r.keys is not None for r in rs)
     keys = [rs[d].keys[e] for _, d, e in order] if allk else None
-    uniq = allk and len(set(keys)) == len(keys)
-    return Ref(outs, keys, all(r.idx for r in rs), True, has_keys=uniq, has_items=all(r.has_items for r in rs))
+    uniq = allk and all(r.has_keys for r in rs) and len(set(keys)) == len(keys)
+    return Ref(outs, keys, all(r.idx for r in rs), True, has_keys=uniq, has_items=allk and all(r.has_items for r in rs))
